@@ -47,7 +47,26 @@ def _cvc5(smt2, timeout_s):
         os.unlink(path)
 
 
-def solve_one(ob, axioms, timeout_ms=None, want_model=True, seed=0):
+def small_model(constraints, axioms, hints, timeout_ms=8000):
+    """A model of the constraints with input sizes as small as the progressive bounds allow."""
+    for bound in (2, 6, 20, 100, 1000, None):
+        s = z3.Solver()
+        s.set('timeout', timeout_ms)
+        for a in axioms:
+            s.add(a)
+        for c in constraints:
+            s.add(c)
+        if bound is not None:
+            if not hints:
+                continue
+            for h in hints:
+                s.add(h(bound))
+        if s.check() == z3.sat:
+            return s.model()
+    return None
+
+
+def solve_one(ob, axioms, timeout_ms=None, want_model=True, seed=0, hints=()):
     timeout_ms = timeout_ms or QUICK_MS
     t0 = time.time()
     s = _solver(ob, axioms, timeout_ms, seed)
@@ -65,6 +84,11 @@ def solve_one(ob, axioms, timeout_ms=None, want_model=True, seed=0):
                 model = s2.model()
     elif r == z3.sat and want_model:
         model = s.model()
+        # prefer a SMALL counter-model (input sizes bounded), so that it can be replayed quickly
+        if hints and ob.kind != 'cover':
+            m2 = small_model(list(ob.hyps) + [z3.Not(ob.goal)], axioms, hints)
+            if m2 is not None:
+                model = m2
     secs = time.time() - t0
     if ob.kind == 'cover':
         status = 'discharged' if r == z3.sat else ('failed' if r == z3.unsat else 'undecided')
@@ -79,13 +103,13 @@ def _work(i):
     return i, status, secs, backend
 
 
-def solve_all(obls, axioms, jobs=None, timeout_ms=None):
+def solve_all(obls, axioms, jobs=None, timeout_ms=None, hints=()):
     """Discharge every obligation; fills ob.status / ob.model / ob.secs / ob.backend."""
     global _OBLS, _AX
     jobs = jobs or int(os.environ.get('VERIF_JOBS', '0')) or min(16, os.cpu_count() or 1)
     if len(obls) < 24 or jobs <= 1:
         for ob in obls:
-            ob.status, ob.model, ob.secs, ob.backend = solve_one(ob, axioms, timeout_ms)
+            ob.status, ob.model, ob.secs, ob.backend = solve_one(ob, axioms, timeout_ms, hints=hints)
         return
     _OBLS, _AX = obls, axioms
     ctx = mp.get_context('fork')
@@ -96,7 +120,7 @@ def solve_all(obls, axioms, jobs=None, timeout_ms=None):
     _OBLS = _AX = None
     for ob in obls:
         if ob.status == 'failed' and ob.kind != 'cover':
-            st, model, secs, backend = solve_one(ob, axioms, timeout_ms)
+            st, model, secs, backend = solve_one(ob, axioms, timeout_ms, hints=hints)
             ob.model = model
             if st != 'failed':
                 # never turn a disagreement into a verdict
